@@ -111,6 +111,19 @@ CHECKS = {
             "into a unit column with a zero H column); modified Gram-Schmidt conjugates the basis; the first column is the normalised start vector; arnoldi_eigs drops the last row of H "
             "and last column of Q together.",
             "The Arnoldi relation, orthonormality and breakdown behaviour as numbers are not decided.", "4/C15"),
+    "C01": ("dtype-source dataflow over every _matmat/_rmatmat, dependence of composite metadata, role checks of dimensions on the generic paths and the Kronecker / KronSum / BlockDiag contractions",
+            "Partial by construction (the value of a product is out of reach): decides that no buffer typed by one side receives data of the other side in place, that the result dtype of "
+            "every product method is influenced by operator and operand, that composite shapes depend on (or validate) all parts, that 1-D operands are reshaped to a column/row and back, "
+            "that to_dense multiplies an identity of the matching side size, that Transpose/Adjoint swap the shape, that the operand is split along the factors' COLUMN sizes and the "
+            "result has the operator's row count, and that every axis moved to the front is moved back by the inverse move.",
+            "Values of products (Kronecker reshaping, BlockDiag slicing, Tridiagonal shifts), nesting depth and tolerances are NOT decided. Opaque methods: FFT, Jacobian, Hessian, "
+            "ConvolveND, the Krylov unary operators, user-supplied matmat.", "4/C01"),
+    "C20": ("dimension-role, attribute-existence, dtype-source and guard/use agreement checks on LinearOperator.__getitem__ and Sliced; one known-bad-idiom rule",
+            "Partial: decides that each arm's canonical vector has the contracted dimension of the operator it multiplies (rows for A.T, columns for A), that every self attribute read by a "
+            "base-class method exists on the base class, that Sliced derives rows from slices[0] and columns from slices[1], stores the caller's index objects unchanged, scatters into an "
+            "(A.C, k) buffer whose dtype covers the operand and gathers by the other index (mirror image on the left), that duck-type guards test the attribute they protect, that every "
+            "documented index form has an arm and the fall-through raises, and that no slice(*s.indices(n)) round trip is used.",
+            "Values for negative / strided / empty slices are delegated to the array library by construction: noted, not proved.", "4/C20"),
 }
 
 NOT_APPLICABLE = {
